@@ -260,8 +260,8 @@ def famWc (cfg : Args) : Except String Fam := do
       Fams.wcStat b.1.length b
     outA := fun p =>
       let den := part p 1 nt
-      -- `if torch.any(self.weighted_target_sum == 0.0): return torch.empty(0)`
-      if den.any (· == 0) then .ok (showVecQ []) else
+      -- `if torch.all(self.weighted_target_sum == 0.0): return torch.empty(0)` ("no update yet")
+      if den.all (· == 0) then .ok (showVecQ []) else
       .ok (showVecX (((part p 0 nt).zip den).map fun q => xdiv q.1 q.2)) }
 
 def specWc (a : Args) : Except Err String := do
